@@ -10,6 +10,7 @@
 (*   CliFuzzy   fst fuzzy Q -d D     : keys within edit distance (or having  *)
 (*                                     a prefix within it, with --prefix)    *)
 (*   CliDupes   fst dupes            : unique <= total <= prefix trie        *)
+(*   CliForce   set/map/union        : a taken output path needs --force     *)
 (* Rejections here are reported as EXTRA-FINDING, never as a VIOLATION of a  *)
 (* listed property.                                                          *)
 EXTENDS FstAbs, Json, IOUtils
@@ -84,7 +85,14 @@ CliDupes ==
     /\ E.unique <= E.total
     /\ E.total <= Cardinality(UNION { PrefixesOf(E.items[i][1]) : i \in 1..Len(E.items) } \cup {<<>>}) + 1
 
-Next == CliSorted \/ CliRange \/ CliUnion \/ CliVerify \/ CliGrep \/ CliFuzzy \/ CliDupes
+\* an output path that is already taken is refused and left alone unless --force is given
+CliForce ==
+    /\ IsEvent("CliForce")
+    /\ IF E.existing /\ ~E.force
+       THEN E.exit # 0 /\ E.untouched
+       ELSE E.exit = 0 /\ ~E.untouched /\ E.out = E.rows
+
+Next == CliSorted \/ CliRange \/ CliUnion \/ CliVerify \/ CliGrep \/ CliFuzzy \/ CliDupes \/ CliForce
 Spec == Init /\ [][Next]_vars
 Accepted ==
     LET d == TLCGet("stats").diameter IN
